@@ -70,3 +70,41 @@ package oidc
 //@   ensures sound: err == nil && maxAge != 0 ==> claims.GetAuthTime() != ZEROTIME
 //@                     && claims.GetAuthTime() >= old(wallclock) - maxAge - 500000000
 //@   ensures complete: claims.GetAuthTime() != ZEROTIME && claims.GetAuthTime() >= wallclock - maxAge + 500000000 ==> err == nil
+
+// ---- C01/C02: token parsing and signature check ----
+
+// jwtPayload(token): the decoded middle part of a three-part compact serialisation.
+//@ spec func jwtPayload(token string) string = b64urlDecode(splitPart(token, ".", 1))
+
+// sigChecked is *defined* as "CheckSignature returned nil for these arguments"; what a nil
+// return implies is stated (and proved on the body) by the other clauses of CheckSignature.
+//@ spec func sigChecked(token string, payload string, set KeySet, algs []string) bool
+
+//@ func oidc.ParseToken
+//@   modifies target(claims)
+//@   ensures three-parts: err == nil ==> splitCount(tokenString, ".") == 3
+//@   ensures middle-part: err == nil ==> bstr(result0) == jwtPayload(tokenString)
+//@   ensures decoded: err == nil ==> tgtvalid(claims)
+//@   ensures fail-nil: splitCount(tokenString, ".") != 3 ==> err != nil && result0 == nil
+
+//@ func oidc.CheckSignature
+//@   requires valid(claims) && valid(set)
+//@   modifies os(claims), os(set)
+//@   defines checked: err == nil ==> sigChecked(token, bstr(payload), set, supportedSigAlgs)
+//@   ensures claims-kept: as(claims, "Claims").GetIssuer() == old(as(claims, "Claims").GetIssuer())
+//@      && as(claims, "Claims").GetSubject() == old(as(claims, "Claims").GetSubject())
+//@      && as(claims, "Claims").GetAudience() == old(as(claims, "Claims").GetAudience())
+//@      && as(claims, "Claims").GetExpiration() == old(as(claims, "Claims").GetExpiration())
+//@      && as(claims, "Claims").GetIssuedAt() == old(as(claims, "Claims").GetIssuedAt())
+//@      && as(claims, "Claims").GetNonce() == old(as(claims, "Claims").GetNonce())
+//@      && as(claims, "Claims").GetAuthenticationContextClassReference() == old(as(claims, "Claims").GetAuthenticationContextClassReference())
+//@      && as(claims, "Claims").GetAuthTime() == old(as(claims, "Claims").GetAuthTime())
+//@      && as(claims, "Claims").GetAuthorizedParty() == old(as(claims, "Claims").GetAuthorizedParty())
+//@   ensures athash-kept: as(claims, "IDClaims").GetAccessTokenHash() == old(as(claims, "IDClaims").GetAccessTokenHash())
+
+// claimHash(claim, alg): the value of at_hash / c_hash for a signing algorithm, defined through
+// crypto.HashString (left half) of the hash crypto.GetHashAlgorithm selects.
+//@ func oidc.ClaimHash
+//@   modifies nothing
+//@   ensures value: err == nil ==> result0 == hashString(hashBitsOf(str(sigAlgorithm)), claim, true)
+//@   ensures known: err == nil <==> hashBitsOf(str(sigAlgorithm)) != 0
